@@ -329,6 +329,68 @@ func c03StructFields(f *ast.File, name string) []string {
 	return out
 }
 
+// nodeText prints any AST node on one line.
+func nodeText(n ast.Node) string {
+	var b bytes.Buffer
+	if err := printer.Fprint(&b, token.NewFileSet(), n); err != nil {
+		return "<unprintable>"
+	}
+	return strings.Join(strings.Fields(b.String()), " ")
+}
+
+// loopExits lists the statements inside the for/range loops of fd that leave a loop early
+// (break, continue, goto, return), in source order.
+func loopExits(fd *ast.FuncDecl) []string {
+	var out []string
+	if fd == nil || fd.Body == nil {
+		return out
+	}
+	var inLoop func(n ast.Node)
+	inLoop = func(n ast.Node) {
+		ast.Inspect(n, func(m ast.Node) bool {
+			switch x := m.(type) {
+			case *ast.BranchStmt:
+				out = append(out, x.Tok.String())
+			case *ast.ReturnStmt:
+				out = append(out, "return")
+			case *ast.FuncLit:
+				return false
+			}
+			return true
+		})
+	}
+	ast.Inspect(fd.Body, func(m ast.Node) bool {
+		switch x := m.(type) {
+		case *ast.ForStmt:
+			inLoop(x.Body)
+			return false
+		case *ast.RangeStmt:
+			inLoop(x.Body)
+			return false
+		}
+		return true
+	})
+	return out
+}
+
+// deferredLiteralCalls lists the calls made inside `defer func() { ... }()` literals of fd.
+func deferredLiteralCalls(fd *ast.FuncDecl) []string {
+	var out []string
+	if fd == nil || fd.Body == nil {
+		return out
+	}
+	ast.Inspect(fd.Body, func(m ast.Node) bool {
+		if d, ok := m.(*ast.DeferStmt); ok {
+			if fl, ok := d.Call.Fun.(*ast.FuncLit); ok {
+				out = append(out, CallSeq(&ast.FuncDecl{Name: ast.NewIdent("deferred"), Body: fl.Body})...)
+			}
+			return false
+		}
+		return true
+	})
+	return out
+}
+
 func methodsOf(f *ast.File, recv string) []string {
 	var out []string
 	for _, d := range f.Decls {
@@ -619,6 +681,32 @@ func genC03(repo string) (string, error) {
 	fmt.Fprintf(&sb, "/-- `compactFlusherStreamWriter.Commit`: the key is registered with the table builder BEFORE `afterAdd` may\nfinish the output file; `Prepare`: the builder is (re)opened and the writer re-bound BEFORE the key is prepared -/\n")
 	fmt.Fprintf(&sb, "def streamWriterCommitCalls : List String := %s\n", LeanStrList(CallSeq(FindFunc(cj, "compactFlusherStreamWriter", "Commit"))))
 	fmt.Fprintf(&sb, "def streamWriterPrepareCalls : List String := %s\n", LeanStrList(CallSeq(FindFunc(cj, "compactFlusherStreamWriter", "Prepare"))))
+	mc := FindFunc(cj, "compactJob", "mergeCompaction")
+	var mcTail []string
+	var mcResults []string
+	if mc != nil {
+		if mc.Type.Results != nil {
+			for _, r := range mc.Type.Results.List {
+				for _, n := range r.Names {
+					mcResults = append(mcResults, n.Name)
+				}
+			}
+		}
+		seenDefer := false
+		for _, st := range mc.Body.List {
+			if _, ok := st.(*ast.DeferStmt); ok {
+				seenDefer = true
+				continue
+			}
+			if seenDefer {
+				mcTail = append(mcTail, nodeText(st))
+			}
+		}
+	}
+	fmt.Fprintf(&sb, "/-- `compactJob.mergeCompaction`: named results, the calls of its deferred function literal (clean-up only),\nand its statements after the `defer` (install only after `doMerge` returned nil) -/\n")
+	fmt.Fprintf(&sb, "def mergeCompactionResults : List String := %s\n", LeanStrList(mcResults))
+	fmt.Fprintf(&sb, "def mergeCompactionDeferCalls : List String := %s\n", LeanStrList(deferredLiteralCalls(mc)))
+	fmt.Fprintf(&sb, "def mergeCompactionTail : List String := %s\n", LeanStrList(mcTail))
 	fmt.Fprintf(&sb, "def afterAddCheck : String := %s\n", strconv.Quote(findIfCond(FindFunc(cj, "compactFlusher", "afterAdd"), "maxFileSize")))
 	fmt.Fprintf(&sb, "def doMergeCalls : List String := %s\n", LeanStrList(CallSeq(FindFunc(cj, "compactJob", "doMerge"))))
 	fmt.Fprintf(&sb, "def installCalls : List String := %s\n", LeanStrList(CallSeq(FindFunc(cj, "compactJob", "installCompactionResults"))))
@@ -628,6 +716,10 @@ func genC03(repo string) (string, error) {
 	}
 	fmt.Fprintf(&sb, "def overlapSkipCheck : String := %s\n", strconv.Quote(findIfCond(FindFunc(vv, "version", "getOverlappingInputs"), "GetMaxKey")))
 	fmt.Fprintf(&sb, "def findFilesCheck : String := %s\n", strconv.Quote(findIfCond(FindFunc(vv, "version", "FindFiles"), "GetMinKey")))
+	ff := FindFunc(vv, "version", "FindFiles")
+	fmt.Fprintf(&sb, "/-- `version.FindFiles`: statements that leave one of its loops early (a level is never cut short: the key\nranges of the files of a level may overlap), and its calls -/\n")
+	fmt.Fprintf(&sb, "def findFilesLoopExits : List String := %s\n", LeanStrList(loopExits(ff)))
+	fmt.Fprintf(&sb, "def findFilesCalls : List String := %s\n", LeanStrList(CallSeq(ff)))
 	fmt.Fprintf(&sb, "def pickThresholdCheck : String := %s\n", strconv.Quote(findIfCond(FindFunc(vv, "version", "PickL0Compaction"), "compactThreshold")))
 	_, vc, err := ParseFile(repo, "kv/version/compact.go")
 	if err != nil {
